@@ -42,7 +42,7 @@ RULE = ("each run draws a history of 0-6 store operations followed by a target o
         "tick and fault kind); distinct = distinct (operation, tick, fault kind, outcome, statement)"
         "; non-trivial = executions in which a fault actually fired")
 PROBES = ["crash_fired", "error_fired", "replace_import", "merge_import", "defective_import",
-          "duplicate_host_import", "conflict_callback_raises", "round_trip", "weird_hostname", "via_cli", "lookalike_family", "big_import_crash_case",
+          "duplicate_host_import", "conflict_callback_raises", "conflict_callback_interrupted", "round_trip", "weird_hostname", "via_cli", "lookalike_family", "big_import_crash_case",
           "crash_between_statement_and_commit"]
 COMPONENTS = {
     "real": ["nauyaca.security.tofu.TOFUDatabase", "sqlite3 on a real file (rollback journal, hot-"
@@ -97,7 +97,13 @@ def gen_op(ch, label, scratch, idx, allow_roundtrip=False):
         op["cert"] = CERTS[ch.choose(label + ".cert", len(CERTS))]
     if k == "import":
         op["merge"] = bool(ch.choose(label + ".merge", 2))
-        op["cb"] = ch.pick(label + ".cb", [None, "accept", "refuse", "raises"], [3, 3, 2, 2])
+        # "interrupts": the callback is where a user presses Ctrl-C / the program exits /
+        # the surrounding task is cancelled - not an `Exception`, the process lives on
+        op["cb"] = ch.pick(label + ".cb", [None, "accept", "refuse", "raises", "interrupts"],
+                           [3, 3, 2, 2, 1])
+        if op["cb"] == "interrupts":
+            op["interrupt"] = ch.pick(label + ".intr", ["KeyboardInterrupt", "SystemExit",
+                                                        "CancelledError", "GeneratorExit"])
         n = 1 + ch.choose(label + ".n", 6, [3, 3, 2, 2, 1, 1])
         ents = []
         for j in range(n):
@@ -189,7 +195,7 @@ def model_apply(op, state):
             if key not in st:
                 st[key] = e["fingerprint"]
             elif st[key] != e["fingerprint"]:
-                if op["cb"] == "raises":
+                if op["cb"] in ("raises", "interrupts"):
                     return None
                 if op["cb"] == "accept":
                     st[key] = e["fingerprint"]
@@ -265,6 +271,13 @@ def do_op(db, op, scratch, tag):
         elif op["cb"] == "raises":
             def cb(*a):
                 raise RuntimeError("conflict callback failed")
+        elif op["cb"] == "interrupts":
+            import asyncio
+            exc = {"KeyboardInterrupt": KeyboardInterrupt, "SystemExit": SystemExit,
+                   "CancelledError": asyncio.CancelledError, "GeneratorExit": GeneratorExit}[op["interrupt"]]
+
+            def cb(*a):
+                raise exc()
         db.import_toml(f, merge=op["merge"], on_conflict=cb)
     return "ok"
 
@@ -376,7 +389,9 @@ def run_one(ch):
         op = gen_op(ch, "pre", scratch, i)
         try:
             do_op(db, op, scratch, f"p{i}")
-        except Exception:
+        except SimCrash:
+            raise
+        except BaseException:  # noqa  (interrupting callbacks included)
             pass
         hist.append(_descr(op))
         # resync the model with reality for the prefix (the target op is what is judged)
@@ -428,7 +443,7 @@ def run_one(ch):
         if target["kind"] in ("import", "clear", "revoke", "revoke_by_hostname") and \
                 not (target["kind"] != "import" and ("\n" in target["host"] or target["host"].startswith("-")
                                                     or not target["host"])) and \
-                ch.chance("via_cli", 0.25):
+                target.get("cb") != "interrupts" and ch.chance("via_cli", 0.25):
             # same operation through the command line entry point
             home = os.path.join(scratch, "home")
             os.makedirs(os.path.join(home, ".nauyaca"), exist_ok=True)
@@ -442,7 +457,9 @@ def run_one(ch):
         try:
             do_op(TOFUDatabase(pathlib.Path(work)), target, scratch, "t")
             outcome = "returned"
-        except Exception as e:  # noqa
+        except SimCrash:
+            raise
+        except BaseException as e:  # noqa  (KeyboardInterrupt & co. from the callback included)
             outcome = "raised:" + type(e).__name__
         SEAM.enabled = False
         # TOFUDatabase() itself runs CREATE TABLE + commit: those ticks belong to opening
@@ -486,7 +503,7 @@ def run_one(ch):
                     oc = "returned"
                 except SimCrash:
                     oc = "crashed"
-                except Exception as e:  # noqa
+                except BaseException as e:  # noqa
                     oc = "raised:" + type(e).__name__
                 fired = SEAM.fired
                 SEAM.enabled = False
@@ -526,6 +543,8 @@ def run_one(ch):
                 res.stats["duplicate_host_import"] += 1
             if target["cb"] == "raises":
                 res.stats["conflict_callback_raises"] += 1
+            if target["cb"] == "interrupts":
+                res.stats["conflict_callback_interrupted"] += 1
     if any(h not in HOSTNAMES[:2] for (h, p) in before):
         res.stats["weird_hostname"] += 1
     SEAM.enabled = True
